@@ -223,7 +223,7 @@ func redCall(r *vc.Rand, g *genState) (string, string, bool) {
 }
 
 func redCall1(r *vc.Rand, g *genState, k, a, ttl string) string {
-	switch r.Intn(24) {
+	switch r.Intn(30) {
 	case 0, 1, 2:
 		g.wrote(k, a, ttl)
 		return fmt.Sprintf("set %s %s %s", k, a, ttl)
@@ -273,7 +273,17 @@ func redCall1(r *vc.Rand, g *genState, k, a, ttl string) string {
 		}
 		return "hdel h " + vc.Pick(r, []string{"f", "g"})
 	}
-	return "incr c " + vc.Pick(r, []string{"1", "1", "2", "-3"})
+	// lifetimes of list / hash / counter keys are part of the comparison as well
+	ck := vc.Pick(r, []string{"h", "l", "c"})
+	switch r.Intn(8) {
+	case 0, 1:
+		return "exp " + ck + " " + ttl
+	case 2, 3:
+		return "ttl " + ck
+	case 4:
+		return "ex " + ck
+	}
+	return "incr c " + vc.Pick(r, []string{"1", "1", "2", "-3", "-1"})
 }
 
 func genRed(r *vc.Rand, thorough bool) []string {
@@ -281,6 +291,7 @@ func genRed(r *vc.Rand, thorough bool) []string {
 	ttls := []string{"0", strconv.Itoa(rShortNS), strconv.Itoa(longNS)}
 	// exhaustive small scope on a kv key, all ttl combinations (incl. a sub-second lifetime)
 	out = append(out, triples("red", "a", append([]string{rSubNS}, ttls...), rSleepNS, true)...)
+	out = append(out, redContainerTriples()...)
 	// storage_based_lock.go call shapes on the Redis backend
 	nlock := 100
 	if thorough {
@@ -467,6 +478,60 @@ func genConc(r *vc.Rand, thorough bool) []string {
 			progs[t] = strings.Join(cs, " ")
 		}
 		out = append(out, "conc "+strings.Join(progs, " ; "))
+	}
+	return out
+}
+
+// redContainerTriples: lifetimes of list / hash / counter keys on the Redis backend — a container
+// that exists with a lifetime different from the default (SetExpiration 0 | short | sub-second | long,
+// or none), optionally aged, then one call on it (new field, existing field, append, removal of a
+// non-last / absent member, increments incl. the zero crossing, SetExpiration), then the lifetime is
+// read, the clock steps past the short deadlines, and everything is read again.
+func redContainerTriples() []string {
+	x, y, z := strAtoms[0], strAtoms[1], sTok("z")
+	sl := "sl " + strconv.Itoa(rSleepNS)
+	ttls := []string{"0", strconv.Itoa(rShortNS), rSubNS, strconv.Itoa(longNS)}
+	type fam struct {
+		key     string
+		setups  []string
+		seconds []string
+		probe   string
+	}
+	fams := []fam{
+		{"h", []string{"hset h f " + x, "hset h f " + x + " hset h g " + y},
+			[]string{"hset h f " + y, "hset h g " + z, "hset h k " + z, "hset h f " + x, "hdel h g", "hdel h q", "hget h f", "hall h"},
+			"ttl h ex h hall h " + sl + " ttl h ex h hall h"},
+		{"l", []string{"app l " + x, "app l " + x + " app l " + y, "setl l 2 " + x + " " + y + " 0", "app l " + x + " app l " + y + " app l " + x, "setl l 3 " + x + " " + x + " " + y + " " + strconv.Itoa(longNS)},
+			[]string{"app l " + z, "app l " + x, "rem l " + x, "rem l " + z, "getl l"},
+			"ttl l ex l getl l " + sl + " ttl l ex l getl l"},
+		{"c", []string{"incr c 1", "incr c 1 incr c -1", "incr c 5"},
+			[]string{"incr c 1", "incr c -1", "incr c 5", "incr c -5", "incr c 2"},
+			"ttl c ex c " + sl + " ttl c ex c"},
+	}
+	var out []string
+	for _, f := range fams {
+		var seconds []string
+		seconds = append(seconds, f.seconds...)
+		for _, t := range ttls {
+			seconds = append(seconds, "exp "+f.key+" "+t)
+		}
+		seconds = append(seconds, "ttl "+f.key)
+		for _, su := range f.setups {
+			exps := []string{""}
+			for _, t := range ttls {
+				exps = append(exps, "exp "+f.key+" "+t)
+			}
+			for _, e := range exps {
+				for _, age := range []string{"", sl} {
+					if age != "" && (strings.HasSuffix(e, " "+strconv.Itoa(rShortNS)) || strings.HasSuffix(e, " "+rSubNS)) {
+						continue // would simply have expired
+					}
+					for _, c := range seconds {
+						out = append(out, strings.Join(strings.Fields("red "+su+" "+e+" "+age+" "+c+" "+f.probe), " "))
+					}
+				}
+			}
+		}
 	}
 	return out
 }
